@@ -152,8 +152,45 @@ static int main_dec(int maxa, int shard, int nsh) {
     return 0;
 }
 
+/* inputs that cross the library's container sizes: more than 32 pairs (HTP_URLENP_DEFAULT_PARAMS_SIZE, the tables of a transaction), fields that
+ * arrive in more than 16 pieces (BSTR_BUILDER_DEFAULT_SIZE); delivered whole, one byte per call, 3 and 17 bytes per call */
+static int main_long(void) {
+    static unsigned char in[4096];
+    static size_t cs[4][4096]; int nc[4];
+    htp_cfg_t *cfgs[6];
+    for (int m = 0; m < 3; m++) for (int p = 0; p < 2; p++) cfgs[m * 2 + p] = mkcfg(m, p);
+    static const char *VIA[] = {"direct", "body", "query"};
+    for (int t = 0; t < 6; t++) {
+        size_t l = 0;
+        if (t == 0) for (int i = 0; i < 40; i++) l += (size_t) sprintf((char *) in + l, "%sk%d=v%d", i ? "&" : "", i, i * 7);
+        if (t == 1) { for (int i = 0; i < 60; i++) in[l++] = (unsigned char) ('a' + i % 26); in[l++] = '='; for (int i = 0; i < 20; i++) l += (size_t) sprintf((char *) in + l, "%%4%d+", i % 10); }
+        if (t == 2) { for (int i = 0; i < 35; i++) in[l++] = '&'; l += (size_t) sprintf((char *) in + l, "a=b"); }
+        if (t == 3) for (int i = 0; i < 5; i++) l += (size_t) sprintf((char *) in + l, "%sname%d=%%zz0123456789abcdefghijklmnopqrstuvwxyz%%4", i ? "&" : "", i);
+        if (t == 4) for (int i = 0; i < 34; i++) l += (size_t) sprintf((char *) in + l, "%s=%d", i ? "&" : "", i);              /* 34 empty names */
+        if (t == 5) for (int i = 0; i < 34; i++) l += (size_t) sprintf((char *) in + l, "%sn%d", i ? "&" : "", i);              /* 34 names without '=' */
+        nc[0] = 0;
+        nc[1] = 0; for (size_t c = 1; c < l; c++) cs[1][nc[1]++] = c;
+        nc[2] = 0; for (size_t c = 3; c < l; c += 3) cs[2][nc[2]++] = c;
+        nc[3] = 0; for (size_t c = 17; c < l; c += 17) cs[3][nc[3]++] = c;
+        for (int m = 0; m < 3; m++) for (int p = 0; p < 2; p++) for (int via = 0; via < 3; via++) {
+            if (via == 2 && l > 200) continue;          /* the request line is built in a small buffer */
+            printf("{\"kind\":\"long\",\"in\":"); pbytes(in, l);
+            printf(",\"mode\":\"%s\",\"plus\":%s,\"udec\":false,\"nulenc\":false,\"nulraw\":false,\"via\":\"%s\",\"outs\":[", MODES[m], p ? "true" : "false", VIA[via]);
+            for (int k = 0; k < 4; k++) {
+                if (k) putchar(',');
+                if (via == 0) run_direct(cfgs[m * 2 + p], in, l, cs[k], nc[k]); else run_real(cfgs[m * 2 + p], via == 2, in, l, cs[k], nc[k]);
+            }
+            printf("]}\n");
+        }
+    }
+    for (int i = 0; i < 6; i++) htp_config_destroy(cfgs[i]);
+    fflush(stdout);
+    return 0;
+}
+
 int main(int argc, char **argv) {
     if (argc >= 5 && !strcmp(argv[1], "dec")) return main_dec(atoi(argv[2]), atoi(argv[3]), atoi(argv[4]));
+    if (argc >= 2 && !strcmp(argv[1], "long")) return main_long();
     htp_cfg_t *cfgs[6];
     for (int m = 0; m < 3; m++) for (int p = 0; p < 2; p++) cfgs[m * 2 + p] = mkcfg(m, p);
     static size_t cutsets[64][8];
